@@ -28,6 +28,7 @@ ASSUMPTIONS = ["oracle = vlib.mapgen.oracle (not 'whatever sequential returned')
                "schedules are explored by permutation of submission batches, injected delays and real pools, not all interleavings"]
 
 STOR = ["file_array", "dict", "shared_memory_dict", "mix"]
+# "mixm": like "mix", but the members of a multi-output function are keyed individually (with different backends)
 
 
 class AuditedThreadPool(ThreadPoolExecutor):
@@ -48,16 +49,22 @@ def plan(tier, seed):
     for i in range(ncase):
         descs.append({"kind": "pools", "seed": seed, "i": i, "delay_seeds": [1] if tier == "quick" else [1, 2, 3]})
         descs.append({"kind": "perm", "seed": seed, "i": i, "maxperm": 24 if tier == "quick" else 120})
+    for i in range(ncase // 2):
+        descs.append({"kind": "pieces", "seed": seed, "i": i})
     return descs
 
 
 def _storage(case, st, i):
-    if st != "mix":
+    if st not in ("mix", "mixm"):
         return st
     names = ["file_array", "dict", "shared_memory_dict"]
     d = {"": names[i % 3]}
     for k, f in enumerate(case["funcs"]):
         if f["mapspec"] is None:
+            continue
+        if st == "mixm" and len(f["outs"]) > 1:
+            for m, o in enumerate(f["outs"]):
+                d[o] = names[(i + k + m) % 3]
             continue
         key = tuple(f["outs"]) if len(f["outs"]) > 1 else f["outs"][0]
         d[key] = names[(i + k + 1) % 3]
@@ -123,9 +130,9 @@ def verify(v, case, env, exp_calls, res, folder, log, cfg, w):
     return ok, order
 
 
-def run_cfg(v, case, env, exp_calls, scratch, entry, exname, st, idx, dseed, orders):
-    cfg = f"{entry}/{exname}/{st}"
-    w = dict(case=mapgen.describe(case), cfg=cfg, delay_seed=dseed)
+def run_cfg(v, case, env, exp_calls, scratch, entry, exname, st, idx, dseed, orders, piece=None):
+    cfg = f"{entry}/{exname}/{st}" + ("/pieces" if piece else "")
+    w = dict(case=mapgen.describe(case), cfg=cfg, delay_seed=dseed, first_piece=str(piece))
     log = probes.new_log(scratch)
     fault = {f["name"]: {"delay": [dseed, 3]} for f in case["funcs"]} if dseed else None
     folder = os.path.join(scratch, f"run-{abs(hash(cfg)) % 10**8}-{dseed}")
@@ -144,6 +151,9 @@ def run_cfg(v, case, env, exp_calls, scratch, entry, exname, st, idx, dseed, ord
         elif exname == "process":
             ex = ProcessPoolExecutor(2 + idx % 2, mp_context=ctx)
             exs.append(ex)
+        elif exname == "process1":
+            ex = ProcessPoolExecutor(1, mp_context=ctx)
+            exs.append(ex)
         elif exname == "dictmix":
             a, b = ThreadPoolExecutor(2), ProcessPoolExecutor(2, mp_context=ctx)
             exs += [a, b]
@@ -158,6 +168,12 @@ def run_cfg(v, case, env, exp_calls, scratch, entry, exname, st, idx, dseed, ord
         kw = dict(run_folder=folder, internal_shapes=mapgen.internal_shapes_arg(case), storage=storage)
         inputs = mapgen.make_inputs(case)
         with quiet():
+            if piece:
+                # the same executor first computes a PART of the map (every second index of one axis); the full run that
+                # follows finds scattered stored elements and must compute exactly the rest
+                pipeline.map(inputs, executor=ex, parallel=True, fixed_indices=piece, **kw)
+                kw["cleanup"] = False
+                v.count("pieces_first_runs")
             if entry == "map":
                 res = pipeline.map(inputs, executor=ex, parallel=True, **kw)
             else:
@@ -166,7 +182,7 @@ def run_cfg(v, case, env, exp_calls, scratch, entry, exname, st, idx, dseed, ord
                     return await r.task
                 res = asyncio.run(go())
     except Exception as e:  # noqa: BLE001
-        v.bad(exc_sig(e, f"run-raised/{entry}/{exname}/{st}"), f"run raised under {cfg}: {exc_msg(e)}", **w)
+        v.bad(exc_sig(e, f"run-raised/{entry}/{exname}/{st}" + ("/pieces" if piece else "")), f"run raised under {cfg}: {exc_msg(e)}", **w)
         return
     finally:
         for e_ in exs:
@@ -248,9 +264,24 @@ def run_perm(v, case, env, exp_calls, scratch, desc):
 
 
 def run_case(desc):
-    case = mapgen.case_from_seed(desc["seed"], desc["i"], allow_autogen=desc["i"] % 2 == 1, allow_renames=desc["i"] % 3 == 0,
-                                 allow_int_arrays=desc["i"] % 4 == 1)
-    v = V()
+    if desc["kind"] == "pieces":
+        # larger axes (2..5) and an axis that may be fixed: searched among the next generated cases
+        v = V()
+        case = None
+        for t in range(40):
+            rng = random.Random(f"c03pieces:{desc['seed']}:{desc['i']}:{t}")
+            cand_case = mapgen.gen_case(rng, sizes={a: rng.randint(2, 5) for a in mapgen.AX}, allow_autogen=t % 2 == 1)
+            cand, _ = mapgen.fixable_axes(cand_case)
+            if cand and mapgen.nontrivial(cand_case):
+                case, axis = cand_case, rng.choice(cand)
+                break
+        if case is None:
+            v.count("pieces_no_fixable_case")
+            return v.result(evaluations=0)
+    else:
+        case = mapgen.case_from_seed(desc["seed"], desc["i"], allow_autogen=desc["i"] % 2 == 1, allow_renames=desc["i"] % 3 == 0,
+                                     allow_int_arrays=desc["i"] % 4 == 1)
+        v = V()
     env, exp_calls = mapgen.oracle(case)
     gens = max(len(c) for c in exp_calls.values())
     keys = []
@@ -277,18 +308,29 @@ def run_case(desc):
                 for exname in ("thread", "process"):
                     for st in STOR:
                         cfgs.append((entry, exname, st))
+                cfgs.append((entry, "process", "mixm"))
+                cfgs.append((entry, "thread", "mixm"))
                 cfgs.append((entry, "dictmix", STOR[i % 4]))
                 cfgs.append((entry, "audited", STOR[(i + 1) % 4]))
             cfgs.append(("map", "default", STOR[i % 3]))
             # every case runs a rotating subset (all 19 configurations are covered across cases)
             rng = random.Random(f"c03:{desc['seed']}:{i}")
-            chosen = rng.sample(cfgs, 8)
+            chosen = rng.sample(cfgs, 9)
             for dseed in desc["delay_seeds"]:
                 for entry, exname, st in chosen:
                     run_cfg(v, case, env, exp_calls, scratch, entry, exname, st, i, dseed, orders)
             v.count("distinct_completion_orders", len(orders))
             if gens >= 2:
                 keys = [mapgen.signature(case) + f"|pools|{c}" for c in chosen]
+        elif desc["kind"] == "pieces":
+            orders = set()
+            i = desc["i"]
+            piece = {axis: slice(0, None, 2)}
+            cfgs = [("map", "process1", STOR[i % 3]), ("map", "thread", STOR[(i + 1) % 3]), ("map_async", "process1", STOR[(i + 2) % 3]),
+                    ("map", "process", "mixm"), ("map", "default", STOR[i % 3])]
+            for entry, exname, st in cfgs:
+                run_cfg(v, case, env, exp_calls, scratch, entry, exname, st, i, 0, orders, piece=piece)
+            keys = [mapgen.signature(case) + f"|pieces|{c}" for c in cfgs]
         else:
             seen = run_perm(v, case, env, exp_calls, scratch, desc)
             v.count("distinct_permuted_schedules", len(seen))
@@ -316,6 +358,10 @@ def finalize(agg, tier, seed):
     total = c.get("cases", 0) + c.get("skipped_sequential_baseline_refused", 0)
     if total and c.get("skipped_sequential_baseline_refused", 0) * 3 > total:
         floors.append("more than a third of the cases skipped because the sequential baseline is refused (see C01)")
+    if c.get("pieces_first_runs", 0) < 50:
+        floors.append(f"only {c.get('pieces_first_runs', 0)} runs in pieces under pools (< 50)")
+    if c.get("runs:process:mixm", 0) < 5:
+        floors.append(f"runs:process:mixm = {c.get('runs:process:mixm', 0)} (< 5)")
     if c.get("happens_before_pairs", 0) < 1000:
         floors.append("fewer than 1000 happens-before pairs checked")
     return floors, {}
